@@ -73,8 +73,11 @@ class ValidationError(Exception):
         for child_key in sorted(
             self.children, key=lambda k: (not isinstance(k, int), k if isinstance(k, int) else str(k))
         ):
+            loc_key = child_key
+            if not isinstance(child_key, (str, int, float, type(None))):
+                loc_key = str(child_key)  # loc must remain JSON-serializable
             for path, error in self.children[child_key]._errors():
-                yield [child_key, *path], error
+                yield [loc_key, *path], error
 
     @property
     def errors(self) -> List[LocalizedError]:
